@@ -87,11 +87,13 @@ impl RoutingTable {
             return false;
         }
 
-        if self
-            .buckets()
-            .values()
-            .any(|bucket| node.already_exists(&bucket.nodes))
-        {
+        // The IP limits apply to _other_ nodes; an entry with the same Id is this node
+        // itself, and it is up to its bucket to refresh (or refuse to update) it.
+        if self.buckets().values().any(|bucket| {
+            bucket.iter().any(|existing| {
+                existing.id() != node.id() && node.already_exists(std::slice::from_ref(existing))
+            })
+        }) {
             return false;
         };
 
